@@ -695,6 +695,56 @@ $GEN{$NG(a int)}{int}{
 	$YIELD{int(i) + int(j)}
 	$RET
 }`, entries: []*Entry{drive("$NG", "int", 1, [][]int{{0}, {1}})}},
+	// a constant bound takes the type of the iteration variable; that type cannot always be spelled where the iterator is made
+	{name: "constant-bound-with-iteration-variable-of-a-type-that-cannot-be-spelled", imports: []string{`"time"`}, decls: `
+type $NGI[T any] int
+
+type $NT8 uint8
+
+$GEN{$NG(a int)}{int}{
+	var gi $NGI[string]
+	for gi = range 3 {
+		$YIELD{int(gi) + a}
+	}
+	var i8 $NT8
+	{
+		type $NT8 string
+		var s $NT8 = "x"
+		for i8 = range 2 {
+			$YIELD{int(i8) + len(s)}
+		}
+	}
+	var r int
+	for r = range 'c' - 'a' {
+		$YIELD{r + 10}
+	}
+	var u uint8
+	{
+		uint8 := 7
+		for u = range 2 {
+			$YIELD{int(u) + uint8}
+		}
+	}
+	var d time.Duration
+	{
+		time := 5
+		for d = range 3 {
+			$YIELD{int(d) + time}
+		}
+	}
+	lv := tr.Lv(0)
+	for lv = range 2 {
+		$YIELD{lv.Int() + 20}
+	}
+	for l := range tr.MaxLevel {
+		$YIELD{l.Int() + 30}
+	}
+	for k := range $NGI[int](2) {
+		$YIELD{int(k) + 40}
+	}
+	$YIELD{int(gi) + int(i8) + r + int(u) + int(d) + lv.Int()}
+	$RET
+}`, entries: []*Entry{drive("$NG", "int", 1, [][]int{{0}, {1}})}},
 	{name: "range-over-rows-of-unaddressable-arrays", decls: `
 func $NBoard(a int) [2][3]int { return [2][3]int{{a, 1, 2}, {3, 4, a}} }
 
